@@ -1,6 +1,7 @@
 mod blobmc;
 mod cfilter;
 mod corrupt;
+mod crash;
 mod driver;
 mod evidence;
 mod fsx;
@@ -38,6 +39,7 @@ fn main() {
                 "C12" => run_tablemc(&args[3]),
                 "C10" => run_corrupt(&args[3]),
                 "C16" => run_fault(&args[3]),
+                "C05" => run_crash(&args[3]),
                 _ => run_hx(&args[2], &args[3]),
             }
         }
@@ -385,6 +387,71 @@ fn run_fault(tier: &str) -> i32 {
     exit
 }
 
+fn run_crash(tier: &str) -> i32 {
+    let (max_wall, _) = registry::caps(tier);
+    let o = crash::run(tier, threads(), max_wall);
+    let mut exit2 = false;
+    for m in o.machinery.iter().take(10) {
+        eprintln!("MACHINERY: {m}");
+        exit2 = true;
+    }
+    let mut items = vec![];
+    let mut seen = std::collections::BTreeSet::new();
+    for f in &o.found {
+        if !seen.insert(f.sig.clone()) {
+            continue;
+        }
+        let r1 = crash::replay(f);
+        let r2 = crash::replay(f);
+        if r1 != r2 || !r1.starts_with("VIOLATION") {
+            eprintln!("MACHINERY: crash case {} did not replay deterministically ({r1} / {r2})", f.sig);
+            exit2 = true;
+            continue;
+        }
+        items.push((f.sig.clone(), f.msg.clone(), serde_json::to_value(f).unwrap()));
+    }
+    let (mut exit, n_viol, n_known) = report("C05", items);
+    if exit2 && exit == 0 {
+        exit = 2;
+    }
+    let _ = std::fs::remove_dir_all(hx::scratch_root());
+    let ev = evidence::Evidence {
+        property: "C05".into(),
+        tier: tier.into(),
+        level: "fault_enumeration".into(),
+        coverage: serde_json::json!({
+            "evaluations": o.images_checked,
+            "distinct_nontrivial": o.images,
+            "rule": "for every history: every prefix of its traced file-system mutation log (one cut after every create/write/truncate/fsync/rename/unlink/mkdir) x every persistence outcome of the model (per directory: every subset of its not-yet-fsynced entry operations, in program order; per reachable file: every boundary of its unsynced writes plus the last write torn after 1 byte / before its last byte), under a strict POSIX model and an ext4-like model; images are de-duplicated by content; each distinct image is recovered by the real Config::open in a worker process, read completely, then written/flushed/compacted",
+            "samples": o.samples,
+            "exhaustive": !o.capped && o.cap_hits == 0,
+            "capped": o.capped,
+            "histories": o.histories,
+            "fs_events": o.events,
+            "crash_points": o.cuts,
+            "distinct_images": o.images,
+            "images_checked": o.images_checked,
+            "per_cut_product_cap_hits": o.cap_hits,
+            "recovered_to_state_before_op": o.ok_before,
+            "recovered_to_state_after_op": o.ok_after,
+            "images_checked_per_fs_model": o.per_model,
+            "known_findings_matched": n_known,
+        }),
+        assumptions: vec![
+            "the persistence model: unsynced file data may be cut at write boundaries or torn inside the last write; unsynced directory operations may each be lost; rename is atomic".into(),
+            "the syscall log of one traced run of the deterministic subject is representative".into(),
+        ],
+        wall_s: o.wall_s,
+        violations: n_viol,
+    };
+    evidence::write_evidence(&ev);
+    eprintln!(
+        "[crash C05 {tier}] histories={} events={} cuts={} images={} checked={} before={} after={} cap_hits={} violations={n_viol} known={n_known} capped={} wall={:.1}s",
+        o.histories, o.events, o.cuts, o.images, o.images_checked, o.ok_before, o.ok_after, o.cap_hits, o.capped, o.wall_s
+    );
+    exit
+}
+
 fn run_tablemc(tier: &str) -> i32 {
     let (max_wall, _) = registry::caps(tier);
     let o = tablemc::run(tier, threads(), max_wall);
@@ -512,6 +579,21 @@ fn run_replay(path: &str) -> i32 {
                     println!("VIOLATION property={} replay={path}", c.property);
                     1
                 }
+            }
+        }
+        Some("crash") => {
+            let c: crash::CrashReplay = serde_json::from_value(v).expect("crash replay");
+            let r = crash::replay(&c);
+            let _ = std::fs::remove_dir_all(hx::scratch_root());
+            println!("crash after fs event #{} ({}) under fs model {}: {r}", c.cut, c.event, c.fs_model);
+            if r.starts_with("VIOLATION") {
+                println!("VIOLATION property={} replay={path}", c.property);
+                1
+            } else if r.starts_with("HARNESS") {
+                2
+            } else {
+                println!("no violation on replay");
+                0
             }
         }
         Some("tablemc") => {
